@@ -49,6 +49,17 @@ def gen_ring_case(rng, ow, elem, maxops):
             fullb = len(sim.items[b]) == sim.cap[b]
             if fullb and not ow:
                 continue
+            if sim.items[b] and rng.chance(1, 6):
+                # aliasing argument: push a reference to an own element (front, back or any)
+                i = rng.choice([0, len(sim.items[b]) - 1, rng.below(len(sim.items[b]))])
+                v = sim.items[b][i]
+                if kind == "pb":
+                    if fullb: sim.items[b].pop(0)
+                    sim.items[b].append(v); ops.append([16, b, i])
+                else:
+                    if fullb: sim.items[b].pop()
+                    sim.items[b].insert(0, v); ops.append([17, b, i])
+                continue
             v = val()
             if kind == "pb":
                 if fullb: sim.items[b].pop(0)
@@ -132,13 +143,14 @@ class RingSpec(Spec):
 
     def nontrivial(self, lines):
         # at least one state-changing element operation beyond construction/destruction
-        return any(l.split()[0] in ("1", "2", "3", "4", "5", "10", "12") for l in lines[1:])
+        return any(l.split()[0] in ("1", "2", "3", "4", "5", "10", "12", "16", "17") for l in lines[1:])
 
     def classify(self, lines):
         tags = set()
         names = {"0": "construct", "1": "push_back", "2": "push_front", "3": "pop_back", "4": "pop_front", "5": "resize",
                  "6": "front", "7": "back", "8": "index", "9": "copy_ctor", "10": "copy_assign", "11": "move_ctor",
-                 "12": "move_assign", "13": "destroy", "14": "equal", "15": "init_list"}
+                 "12": "move_assign", "13": "destroy", "14": "equal", "15": "init_list",
+                 "16": "push_back_alias", "17": "push_front_alias"}
         for l in lines[1:]:
             tags.add("op:" + names.get(l.split()[0], "?"))
         hd = lines[0].split()
@@ -169,7 +181,10 @@ class C04(RingSpec):
     trusted_extra = ("RingModel.v is a hand transcription of RingBuffer.h; oracle in harness/ring.cpp is an independent std::deque replay",)
 
     def oracle_relevant(self, msg):
-        # element lifetimes and leaks are C09's subject
+        # element lifetimes and leaks are C09's subject, except reading a value out of storage that holds no
+        # element (any more): what is then stored is not "exactly the value pushed"
+        if "from a non-element" in msg:
+            return True
         return "lifetime:" not in msg and "end of case:" not in msg
 
 
